@@ -1,9 +1,14 @@
 (* C06 - Routing, queueing and tagging follow exactly the record's own key fields.
    Only the property theorems; each is closed by [exact] of a lemma from Proofs/.
    The model (Model/Routing.v) mirrors the code AFTER the three fix: commits of this property
-   (length-prefixed merged key in LocalCachedMap and LogProcessCounterSet; S_IFDIR test in ListBufferIDs). *)
+   (length-prefixed merged key in LocalCachedMap and LogProcessCounterSet; S_IFDIR test in ListBufferIDs) and after
+   the fix of property C07 (b1856f7: where key values become Prometheus label values they go through
+   strings.ToValidUTF8(v, "") = Utf8.to_valid_utf8).  Since then the key_* metric labels are a LOSSY rendering of the
+   key values (section 2c); pipeline, id / queue name, tag and the map entries follow the key values themselves. *)
 From SV Require Import Model.Common Model.Md5 Model.Routing Model.RoutingMem Spec.RoutingSpec
-  Proofs.MergedKeyProofs Proofs.RoutingProofs Proofs.QueueProofs Proofs.TagTemplateProofs Proofs.RestartProofs Proofs.RoutingMemProofs.
+  Proofs.MergedKeyProofs Proofs.RoutingProofs Proofs.QueueProofs Proofs.TagTemplateProofs Proofs.RestartProofs Proofs.RoutingMemProofs
+  Proofs.LabelValueProofs.
+From SV Require Model.Utf8 Spec.Utf8Spec.
 
 (* ---------------------------------------------------------------------------------------------- *)
 (* 1. the lookup key of LocalCachedMap / LogProcessCounterSet                                      *)
@@ -33,14 +38,15 @@ Print Assumptions C06_original_concat_key_refuted.
 (* 2. routing and tagging: all templates, all initial ids, all numbers of sinks, all arrival orders *)
 
 (* Every record is appended to a pipeline that was created for exactly its own key tuple: the
-   pipeline's keys (= the metric labels "key_<name>"), its id (queue name) and its tag are those of the record's
-   own values. *)
+   pipeline's keys, its id (queue name) and its tag are those of the record's own values, and its metric labels
+   "key_<name>" are the record's own values with the bytes that are not well-formed UTF-8 removed. *)
 Theorem C06_routing_own_keys :
   forall parts n ids nsinks ops g0 g lms is,
     orch_init parts n ids = Ok g0 ->
     run_ops parts g0 (repeat [] nsinks) ops = Ok (g, lms, is) ->
     Forall2 (fun o i => exists p, nth_error (g_pipes g) i = Some p /\ p_keys p = snd o /\
-                                  p_id p = pipeline_id (snd o) /\ build_tag parts (snd o) = Ok (p_tag p)) ops is.
+                                  p_id p = pipeline_id (snd o) /\ build_tag parts (snd o) = Ok (p_tag p) /\
+                                  p_labels p = map Utf8.to_valid_utf8 (snd o)) ops is.
 Proof. exact routing_own_keys_lemma. Qed.
 Print Assumptions C06_routing_own_keys.
 
@@ -95,12 +101,15 @@ Theorem C06_tag_injective_separated :
 Proof. exact tag_injective_sep_template. Qed.
 Print Assumptions C06_tag_injective_separated.
 
-(* Metric key sets (LogProcessCounterSet.SelectMetricKeySet): every record is counted under the label
-   values of its own metric key tuple, and two records share counters exactly when the tuples are equal. *)
+(* Metric key sets (LogProcessCounterSet.SelectMetricKeySet): every record is counted by the counter set (map entry)
+   of its own metric key tuple, whose counters carry that tuple's values with the ill-formed bytes removed as label
+   values; two records share a counter set exactly when the tuples are equal.  (Counter sets with equal label
+   values write into the same exported series: C06_labels_collide_on_invalid_refuted.) *)
 Theorem C06_metric_own_keys :
   forall recs m is,
     metric_run m_init recs = (m, is) ->
-    Forall2 (fun ks i => nth_error (m_sets m) i = Some ks) recs is /\
+    Forall2 (fun ks i => nth_error (m_sets m) i = Some ks /\
+                         nth_error (m_labels m) i = Some (map Utf8.to_valid_utf8 ks)) recs is /\
     (forall j k ks ks' i i', nth_error recs j = Some ks -> nth_error recs k = Some ks' ->
         nth_error is j = Some i -> nth_error is k = Some i' -> (ks = ks' <-> i = i')).
 Proof. exact metric_own_keys_lemma. Qed.
@@ -122,26 +131,86 @@ Theorem C06_stored_values_are_copies :
 Proof. exact stored_values_are_copies_lemma. Qed.
 Print Assumptions C06_stored_values_are_copies.
 
-(* Hence every routed record's pipeline shows that record's own key values (metric labels), id and tag after
-   any number of later records have overwritten the buffers. *)
+(* Hence every routed record's pipeline shows that record's own key values, id, tag and metric labels (its own
+   values without the ill-formed bytes) after any number of later records have overwritten the buffers. *)
 Theorem C06_pooled_routing_own_keys :
   forall parts evs st is vs,
     m_run true parts rs_init evs = Ok (st, is, vs) ->
     forall h, Forall2 (fun t i => exists p, nth_error (observe_with h st) i = Some p /\ p_keys p = t /\
-                                  p_id p = pipeline_id t /\ build_tag parts t = Ok (p_tag p)) vs is.
+                                  p_id p = pipeline_id t /\ build_tag parts t = Ok (p_tag p) /\
+                                  p_labels p = map Utf8.to_valid_utf8 t) vs is.
 Proof. exact pooled_routing_own_keys_lemma. Qed.
 Print Assumptions C06_pooled_routing_own_keys.
 
 (* With a copy of the slice only (deep = false; the seeded change C06/1) the model is refuted: template "$app",
    the record "info sshd" creates the pipeline, its buffer is recycled for "warn cron": tag, id and labels of the
-   pipeline now read "cron" although the only routed record had app = "sshd". *)
+   pipeline now read "cron" although the only routed record had app = "sshd" (ToValidUTF8 returns a valid argument
+   itself, so the label shares the buffer too). *)
 Theorem C06_shallow_key_copy_refuted :
   exists st is vs,
     m_run false alias_parts rs_init alias_events = Ok (st, is, vs) /\
     vs = [[[115;115;104;100]]] /\
-    observe st = [{| p_keys := [[99;114;111;110]]; p_id := [99;114;111;110]; p_tag := [99;114;111;110] |}].
+    observe st = [{| p_keys := [[99;114;111;110]]; p_id := [99;114;111;110]; p_tag := [99;114;111;110];
+                     p_labels := [[99;114;111;110]] |}].
 Proof. exact shallow_copy_aliases. Qed.
 Print Assumptions C06_shallow_key_copy_refuted.
+
+(* ---------------------------------------------------------------------------------------------- *)
+(* 2c. the key_* metric labels are a lossy rendering of the key values (fix b1856f7)                  *)
+
+(* What a label value is, against specifications that do not mention the decoder: it is well-formed UTF-8
+   (Spec/Utf8Spec.v: a concatenation of RFC 3629 encodings of scalar values), it is the key value with some bytes
+   left out (Spec/RoutingSpec.v subseq), and cleaning it again changes nothing.  For all byte strings. *)
+Theorem C06_label_values_valid :
+  forall s : bytes,
+    Utf8Spec.valid_utf8 (Utf8.to_valid_utf8 s) /\ subseq (Utf8.to_valid_utf8 s) s /\
+    Utf8.to_valid_utf8 (Utf8.to_valid_utf8 s) = Utf8.to_valid_utf8 s.
+Proof. exact label_value_spec. Qed.
+Print Assumptions C06_label_values_valid.
+
+(* For a record whose key values are valid UTF-8 the labels of its pipeline are exactly its key values - the
+   statement of C06_routing_own_keys before the fix, on the domain where label values can be exact at all. *)
+Theorem C06_labels_exact_for_valid_utf8 :
+  forall parts n ids nsinks ops g0 g lms is,
+    orch_init parts n ids = Ok g0 ->
+    run_ops parts g0 (repeat [] nsinks) ops = Ok (g, lms, is) ->
+    Forall2 (fun o i => Forall Utf8Spec.valid_utf8 (snd o) ->
+                        exists p, nth_error (g_pipes g) i = Some p /\ p_labels p = snd o) ops is.
+Proof. exact labels_exact_for_valid_lemma. Qed.
+Print Assumptions C06_labels_exact_for_valid_utf8.
+
+(* ... and the same for the metric key sets. *)
+Theorem C06_metric_labels_exact_for_valid_utf8 :
+  forall recs m is,
+    metric_run m_init recs = (m, is) ->
+    Forall2 (fun ks i => Forall Utf8Spec.valid_utf8 ks -> nth_error (m_labels m) i = Some ks) recs is.
+Proof. exact metric_labels_exact_for_valid_lemma. Qed.
+Print Assumptions C06_metric_labels_exact_for_valid_utf8.
+
+(* On valid UTF-8 tuples the label values identify the tuple. *)
+Theorem C06_labels_injective_on_valid_utf8 :
+  forall ks ks' : list bytes,
+    Forall Utf8Spec.valid_utf8 ks -> Forall Utf8Spec.valid_utf8 ks' ->
+    map Utf8.to_valid_utf8 ks = map Utf8.to_valid_utf8 ks' -> ks = ks'.
+Proof. exact labels_injective_valid. Qed.
+Print Assumptions C06_labels_injective_on_valid_utf8.
+
+(* REFUTED in general (documented limit of the repaired code, not a finding: the statement of the property names
+   pipeline, queue directory and tag, and these stay separate).  The key tuples (0xFF) and (0xFE) differ and have the
+   same label values; routed with the template "$k0" they get two pipelines with different keys, ids / queue names
+   and tags (C06_routing_injective) whose key_* labels coincide; as metric keys they get two counter sets with the
+   same label values.  What is shared is the exported metric series only. *)
+Theorem C06_labels_collide_on_invalid_refuted :
+  (exists ks ks' : list bytes, length ks = length ks' /\ ks <> ks' /\
+     map Utf8.to_valid_utf8 ks = map Utf8.to_valid_utf8 ks') /\
+  (exists g lms p q,
+     run_ops collide_parts g_init [[]] collide_ops = Ok (g, lms, [0; 1]%nat) /\
+     g_pipes g = [p; q] /\ p_keys p <> p_keys q /\ p_id p <> p_id q /\ p_tag p <> p_tag q /\
+     p_labels p = p_labels q) /\
+  (exists m, metric_run m_init [[[255]]; [[254]]] = (m, [0; 1]%nat) /\
+     nth_error (m_labels m) 0 = nth_error (m_labels m) 1).
+Proof. exact labels_collide_witness. Qed.
+Print Assumptions C06_labels_collide_on_invalid_refuted.
 
 (* ---------------------------------------------------------------------------------------------- *)
 (* 3. pipeline id, queue directory, .id round trip (on-disk format: NOT repaired, see findings)      *)
